@@ -518,7 +518,7 @@ def main():
     tasks = [(i, h, a.seed, True) for i, h in enumerate(hists)]
     traces = []
     kinds = set()
-    with mp.get_context("fork").Pool(16) as pool:
+    with mp.get_context("fork").Pool(common.workers()) as pool:
         for r in pool.imap_unordered(replay_task, tasks, chunksize=4):
             rep.traces += 1
             rep.evaluations += r["images"]
